@@ -30,7 +30,8 @@ PROP = dict(
     ],
     assumptions=[
         "PARTIAL: Go map iteration order, goroutine scheduling, database/IAVL behaviour and CometBFT cannot be exhibited by the Gallina model; they are explored by the four-replica differential and the static scan, not proved",
-        "the four replicas run in one process: package-level Go state is shared between them (replica D is run after the others so that state left behind in package-level variables shows up as a divergence at early heights)",
+        "the four replicas run in one process: package-level Go state is shared between them (replica D is run after the others so that state left behind in package-level variables can show up as a divergence at early heights); a stale package-level cache that all replicas share shows up as a broken correspondence, not as a replica divergence",
+        "replicas A and D see nothing but FinalizeBlock/Commit (and the compared exports); the generator's dry runs and the observer's keeper reads are made on the noisy replica C, on branches of its committed multistore",
         "the EVM execution of a transaction (receipt logs, gas used) is an oracle input of the model; conversions, governance bookkeeping and malformed bytes are opaque transactions whose result class is an oracle input",
         "the fee collector and the distribution module account are outside the compared projection (x/distribution sweeps them every block)",
         "static scan allow-list = the occurrences of map ranges with order-dependent bodies, time.Now, go statements, math/rand and floats in the consensus-path packages of the current tree, keyed by file + function + construct",
